@@ -179,24 +179,25 @@ class SymProvider:
     exponents: integers in EXP_RANGE (lazy tag); factorial operands: ints in FACT_RANGE.
     """
 
-    def __init__(self, ctx: Ctx, mode: str = "real", prefix: str = "c"):
+    def __init__(self, ctx: Ctx, mode: str = "real", prefix: str = "c", exp_range: Optional[Tuple[int, int]] = None):
         self.ctx = ctx
         self.mode = mode
         self.prefix = prefix
+        self.exp_range = exp_range or EXP_RANGE
         self.z: Dict[int, Any] = {}
         self.tags: Dict[int, Any] = {}
 
     _cache: Dict[Any, Any] = {}
 
     def get(self, slot: int, role: str) -> Any:
-        key = (self.prefix, slot, role, self.mode, ACTIVE["name"])
+        key = (self.prefix, slot, role, self.mode, ACTIVE["name"], self.exp_range)
         ent = SymProvider._cache.get(key)
         if ent is None:
             z = z3.Real(f"{self.prefix}{slot}")
             tag = z3.Bool(f"{self.prefix}{slot}_isint")
             cons = [z3.Implies(tag, z3.IsInt(z))]
             if role == "exp":
-                cons.append(z3.And(z3.IsInt(z), z >= EXP_RANGE[0], z <= EXP_RANGE[1]))
+                cons.append(z3.And(z3.IsInt(z), z >= self.exp_range[0], z <= self.exp_range[1]))
             elif role == "fact":
                 cons.append(z3.And(z3.IsInt(z), z >= FACT_RANGE[0], z <= FACT_RANGE[1]))
                 cons.append(tag)
